@@ -135,6 +135,24 @@ NEEDS = {
     'C18-gB': "condition labels other than 0..n-1 (descriptor stores codes instead of the condition vector)",
     'C19-gA': "radius equal to an attainable irrational voxel distance (sqrt(2), sqrt(5) ...) with squared-distance comparison",
     'C19-gB': "searchlight RDMs object re-ordered or sub-selected before evaluation (selection by 'index' value)",
+    'C04-hA': "eval_bootstrap_pattern: a too-small resample (NaN columns dropped from the stored noise ceilings)",
+    'C04-hB': "eval_bootstrap with fewer condition groups than rdm groups (dof = min(n_rdm - 1, n_pattern))",
+    'C05-hA': "pattern descriptor stored as ndarray with strictly increasing values + random fold assignment (descriptor array shuffled in place)",
+    'C05-hB': "float rdm group labels within relative tolerance 1e-5 of each other (np.isclose in subsample)",
+    'C09-hA': "grouping pattern descriptor stored as ndarray and not sorted by position (sorted in place by the first draw)",
+    'C09-hB': "draw, then re-assign the grouping descriptor's values (same n_rdm), then draw again (stale label table)",
+    'C10-hA': "permute_rdms with a permutation that is not its own inverse and a named pattern descriptor",
+    'C10-hB': "concat/from_partials of >= 3 objects with an object-level descriptor carried only by a middle one",
+    'C11-hA': "subset_obs/subset_channel with a value list containing an absent value that truncates / casts onto a present label",
+    'C11-hB': "observation descriptor with missing entries and exactly one distinct real value left, through to_df/from_df",
+    'C12-hA': "calc_rdm(method='poisson', descriptor=None) on float64 measurements (smoothing done in place)",
+    'C12-hB': "geodesic_transform of the output of minmax_transform (works on the live array)",
+    'C16-hA': "HDF5: list/array string descriptor whose longest element has non-ASCII characters (byte width taken from the character count)",
+    'C16-hB': "HDF5: arrays of non-native byte order come back byte-swapped",
+    'C18-hA': "one partition, unsorted condition vector, calc_rdm by cond_vec (two cooperating edits)",
+    'C18-hB': "use_same_signal=True, n_sim >= 2, noise > 0 (noise accumulates in one shared array)",
+    'C19-hA': "an earlier iteration over the searchlight RDMs object that was abandoned (iteration cursor kept on the object)",
+    'C19-hB': "threshold 1.0, radius > 1 and a mask within the radius of the volume border (erosion pre-selection)",
 }
 
 
